@@ -2,6 +2,7 @@ import Clover.Proofs.RefineStep
 import Clover.Proofs.BulkExact
 import Clover.Proofs.ReadsExact
 import Clover.Proofs.SortClasses
+import Clover.Proofs.CopyAnyPlan
 /-! # Refinement of STATES along histories, whatever plan serves the queries
 
 `refine_history` (RefineStep.lean) is restricted to histories whose query-carrying calls are served
@@ -38,7 +39,7 @@ def Op.InDomain (s : Spec.State) : Op → Prop
   | .count _ => True
   | .update q _ => FullPlan s q ∨ BulkDomain s q
   | .delete q => FullPlan s q ∨ BulkDomain s q
-  | .createCollectionByQuery c q _ => FullPlan (Spec.insert c ({} : Spec.Coll) s) q
+  | .createCollectionByQuery c q _ => FullPlan (Spec.insert c ({} : Spec.Coll) s) q ∨ CopyDomain s c q
   | _ => True
 
 /-- every call of the history is in the domain in the specification state reached before it -/
@@ -228,7 +229,10 @@ theorem exec_refines_state (op : Op) (hop : OpOK op) (hroute : op.route = op)
         obtain ⟨hd, hsk, hlim⟩ := hany coll hl
         exact delete_refines_state_any_plan likeFn fnFam s σ hw hr q coll hl hd hsk hlim
   | createCollectionByQuery c q fresh =>
-    exact state_of_refines (exec_refines likeFn fnFam _ hop hroute s σ hw hr hdom)
+    rcases hdom with hfull | hcopy
+    · exact state_of_refines (exec_refines likeFn fnFam _ hop hroute s σ hw hr hfull)
+    · exact state_of_refines
+        (createCollectionByQuery_exact_any_plan likeFn fnFam s σ hw hr c hop q fresh hcopy.1 hcopy.2.1 hcopy.2.2)
   | _ => exact state_of_refines (exec_refines likeFn fnFam _ hop hroute s σ hw hr trivial)
 
 /-- **One public call refines the specification's STATE step, whatever plan serves it**: a
